@@ -89,6 +89,7 @@ def cases(draw):
 def jobs(tier, seed):
     n, shards = (3200, 8) if tier == "quick" else (192000, 16)
     out = [{"name": "headers", "kind": "headers"}]
+    out += [{"name": f"structured-{i}", "kind": "structured", "shard": i, "of": 8} for i in range(8)]
     out += [{"name": f"hyp-{i}", "kind": "hyp", "seed": seed * 1000 + i, "n": n // shards} for i in range(shards)]
     return out
 
@@ -98,5 +99,16 @@ def run_job(job, coll):
         for case in header_cases():
             coll.check(case, run_case)
         coll.exhaustive["all legal first-two-byte headers (fin, opcode, mask, 7-bit length field)"] = True
+    elif job["kind"] == "structured":
+        from ..sizes import structured
+
+        for i, n in enumerate(structured(300000)):
+            if i % job["of"] != job["shard"] or n < 126:
+                continue
+            key = bytes([n & 0xFF, 0x11, (n >> 8) & 0xFF, 0xA5]) if i % 2 else None
+            # the frame of structured length, then a small frame that must be parsed from its true start
+            specs = [{"fin": 1, "op": rm.BINARY, "p": {"rep": bytes([i & 0xFF, 1, 2, 3, 5]), "n": n}, "key": key}, {"fin": 1, "op": rm.TEXT, "p": b"next", "key": None}]
+            coll.check({"frames": specs, "driver": ("frame", "data_frame", "data", "recv")[i % 4], "cf": False, "cuts": []}, run_case)
+        coll.exhaustive["structured frame lengths up to 300000, masked and unmasked"] = True
     else:
         hyp_run(coll, cases(), run_case, job["seed"], job["n"])
